@@ -80,7 +80,7 @@ fn names() -> Names {
 }
 
 fn salts() -> Vec<Vec<u8>> {
-    vec![vec![0x01], vec![0x02], (0..64).collect()]
+    vec![vec![0x01], vec![0x02], (0..64).collect(), vec![]]
 }
 
 fn build_app(reg_ops: &[ROp], storage: &SnapStorage, nm: &Names) -> RApp {
@@ -159,7 +159,7 @@ fn step(ctx: &Ctx, st: &RState, op: &ROp, nm: &Names, shared: &Shared) -> StepOu
         Migrate(Result<(), ()>),
         NotAsserted,
     }
-    let exp = match op {
+    let mut exp = match op {
         ROp::Store | ROp::StoreCreator(_) => Exp::Code(Ok(max_id + 1)),
         ROp::StoreId(id) => Exp::Code(if *id == 0 || model.codes.contains_key(id) { Err(()) } else { Ok(*id) }),
         ROp::Dup(id) => Exp::Code(if model.codes.contains_key(id) { Ok(max_id + 1) } else { Err(()) }),
@@ -249,6 +249,13 @@ fn step(ctx: &Ctx, st: &RState, op: &ROp, nm: &Names, shared: &Shared) -> StepOu
         }
     };
     let unchanged = |app: &RApp| app.storage().data == before_raw && observe_registry(app) == before_reg;
+    // the property does not say whether an empty salt is a salt the chain accepts: a first use may be
+    // rejected (without effect) or accepted (then everything said about salted addresses applies)
+    if let ROp::Inst2 { salt, .. } = op {
+        if salts()[*salt as usize].is_empty() && matches!(exp, Exp::Contract(Ok(()))) && run.is_err() {
+            exp = Exp::Contract(Err(()));
+        }
+    }
     // ---- compare
     match (&exp, &run) {
         (Exp::Code(Ok(want)), Ok(got)) => {
@@ -463,6 +470,7 @@ pub fn alphabet(tier: Tier) -> Vec<ROp> {
                 v.push(ROp::Inst2 { code: *code, creator, salt, ok: true });
             }
         }
+        v.push(ROp::Inst2 { code: *code, creator: 0, salt: 3, ok: true });
         v.push(ROp::Inst2 { code: *code, creator: 0, salt: 0, ok: false });
         v.push(ROp::Migrate { code: *code });
     }
